@@ -13,11 +13,13 @@ import (
 	"sort"
 	"strconv"
 	"strings"
+	"time"
 
 	"github.com/btcsuite/btcd/btcec/v2"
 	"github.com/btcsuite/btcd/btcutil"
 	"github.com/btcsuite/btcd/chaincfg/chainhash"
 	"github.com/btcsuite/btcd/wire"
+	"github.com/lightninglabs/lndclient"
 	"github.com/lightninglabs/pool"
 	"github.com/lightninglabs/pool/account"
 	"github.com/lightninglabs/pool/auctioneer"
@@ -898,6 +900,41 @@ func (d *c06DB) batch(id, tx int, feeOk bool, m map[int][]uint64) *order.Batch {
 	return b
 }
 
+// c06Notifier / c06AcctAuctioneer stand in for lnd's chain notifier and the
+// auctioneer client when the real account manager resumes an account.
+type c06Notifier struct {
+	lndclient.ChainNotifierClient
+	confs, spends int
+}
+
+func (n *c06Notifier) RegisterConfirmationsNtfn(context.Context, *chainhash.Hash, []byte, int32, int32,
+	...lndclient.NotifierOption) (chan *chainntnfs.TxConfirmation, chan error, error) {
+
+	n.confs++
+	return make(chan *chainntnfs.TxConfirmation), make(chan error), nil
+}
+
+func (n *c06Notifier) RegisterSpendNtfn(context.Context, *wire.OutPoint, []byte, int32) (
+	chan *chainntnfs.SpendDetail, chan error, error) {
+
+	n.spends++
+	return make(chan *chainntnfs.SpendDetail), make(chan error), nil
+}
+
+type c06AcctAuctioneer struct {
+	account.Auctioneer
+	subs int
+}
+
+func (a *c06AcctAuctioneer) Terms(context.Context) (*terms.AuctioneerTerms, error) {
+	return &terms.AuctioneerTerms{MaxAccountValue: 10 * btcutil.SatoshiPerBitcoin}, nil
+}
+
+func (a *c06AcctAuctioneer) StartAccountSubscription(context.Context, *keychain.KeyDescriptor) error {
+	a.subs++
+	return nil
+}
+
 // ---------------------------------------------------------------- reconnect fakes
 
 type c06Rpc struct {
@@ -1018,14 +1055,15 @@ func c06SnapEq(a, b *c06Snap) bool {
 func (c *c06Case) step(op string) {
 	r, d := c.r, c.d
 	f := strings.Fields(op)
-	if len(f) == 0 {
-		return
+	if len(f) == 0 || c.bad != "" {
+		return // a case stops at its first oracle violation
 	}
 	c.hist = append(c.hist, op)
 	prev := c.prev
 	var (
 		res      string
 		crashDir string
+		watchers = -1
 		directDel = -1
 		stageExp *c06Snap // expected staged version (stage ops)
 		directA  map[int]c06Acct
@@ -1226,11 +1264,71 @@ func (c *c06Case) step(op string) {
 			default:
 				tx.TxIn[0].Witness = wire.TxWitness{{0x01}, {0x02}}
 			}
-			mgr := account.NewManager(&account.ManagerConfig{Store: pool.VerifC06AccountStore(d.db)})
+			ntf, auc := &c06Notifier{}, &c06AcctAuctioneer{}
+			if kind == "recreate" {
+				// resumeAccount only registers watchers in the states an
+				// account has after a batch; elsewhere it needs the wallet
+				rec, found := prev.A[k]
+				if prev.P != nil {
+					if st, in := prev.P.A[k]; in {
+						rec, found = st, true
+					}
+				}
+				if !found || (rec.State != 2 && rec.State != 4 && rec.State != 8 && rec.State != 9) {
+					kind, f[2] = "multisig", "multisig"
+					op = strings.Join(f, " ")
+					c.hist[len(c.hist)-1] = op
+					if (k+t+h)%2 == 0 {
+						tx.TxIn[0].Witness = wire.TxWitness{bytes.Repeat([]byte{0x30}, 71),
+							bytes.Repeat([]byte{0x30}, 71), {0x52, 0x21}}
+					} else {
+						tx.TxIn[0].Witness = wire.TxWitness{bytes.Repeat([]byte{0x01}, 64)}
+					}
+				}
+			}
+			if kind == "recreate" {
+				// the spend of a confirmed batch: multi-sig witness and the
+				// account output of the (staged, else current) account is
+				// recreated by the spending transaction
+				tx.TxIn[0].Witness = wire.TxWitness{bytes.Repeat([]byte{0x01}, 64)}
+				rec, found := prev.A[k]
+				if prev.P != nil {
+					if st, in := prev.P.A[k]; in {
+						rec, found = st, true
+					}
+				}
+				if found {
+					if out, err := d.toAcct(k, rec).Output(); err == nil {
+						tx.AddTxOut(out)
+					}
+				}
+			}
+			mgr := account.NewManager(&account.ManagerConfig{
+				Store: pool.VerifC06AccountStore(d.db), Auctioneer: auc, ChainNotifier: ntf,
+			})
+			defer func() {
+				done := make(chan struct{})
+				go func() { mgr.Stop(); close(done) }()
+				select {
+				case <-done:
+				case <-time.After(2 * time.Second):
+				}
+				if kind == "recreate" {
+					watchers = ntf.confs + ntf.spends
+				}
+			}()
 			err := mgr.HandleAccountSpend(d.w.acctKey[k], &chainntnfs.SpendDetail{
 				SpendingTx: tx, SpenderInputIndex: 0, SpendingHeight: int32(h),
 			})
 			res = c06ErrName(err)
+		case "reconn":
+			var asked [][]byte
+			res, asked = d.reconnVia(f[1], f[2], f[3] == "1")
+			for _, q := range asked {
+				if prev.P != nil && !bytes.Equal(q, func() []byte { b := d.w.batchID(prev.P.ID); return b[:] }()) {
+					c.violate("reconnect asked the auctioneer about batch %x, pending is %d", q, prev.P.ID)
+				}
+			}
 		case "reconnect":
 			var fk *c06Rpc
 			res, fk = d.reconnect(f[1], f[2] == "1")
@@ -1282,7 +1380,7 @@ func (c *c06Case) step(op string) {
 	}
 	// ---------------- oracle: the property's English text on real outputs ----------------
 	ok := res == "ok"
-	if f[0] == "reconnect" {
+	if f[0] == "reconnect" || f[0] == "reconn" {
 		ok = true
 	}
 	if !ok && ob.str() != prev.str() {
@@ -1432,6 +1530,44 @@ func (c *c06Case) step(op string) {
 		k, kind, t, h := atoi(f[1]), f[2], int64(atoi(f[3])), int64(atoi(f[4]))
 		_, known := prev.A[k]
 		r.Count("acctspend/" + kind + "/" + res)
+		if known && kind == "recreate" {
+			// = exactly the pending-batch clause: the staged batch is
+			// completed, nothing else is written, the account is watched
+			if !ok {
+				c.violate("spend of a confirmed batch failed: %s", res)
+			}
+			if watchers < 1 {
+				c.violate("account %d not watched on-chain after its batch spend", k)
+			}
+			if prev.P == nil {
+				if ob.str() != prev.str() {
+					c.violate("batch spend without staged batch changed the database")
+				}
+				break
+			}
+			r.Count("acctspend/recreate-completes-pending")
+			c.sawCompleteOk = true
+			if ob.P != nil {
+				c.violate("staged batch not completed by the spend of its transaction")
+			}
+			for kk, a := range prev.A {
+				if st, in := prev.P.A[kk]; in {
+					a = st
+				}
+				if got, found := ob.A[kk]; !found || !acctEq(got, a) {
+					c.violate("account %d after batch spend: got %v want %v", kk, ob.A[kk], a)
+				}
+			}
+			for n, o := range prev.O {
+				if so, in := prev.P.O[n]; in {
+					o.State, o.Unfilled = so.State, so.Unfilled
+				}
+				if got, found := ob.O[n]; !found || got != o {
+					c.violate("order %d after batch spend: got %v want %v", n, ob.O[n], o)
+				}
+			}
+			break
+		}
 		if !known || kind == "unknown" {
 			if ok || ob.str() != prev.str() {
 				c.violate("spend of unknown account / with unknown witness: result %s or state changed", res)
@@ -1508,6 +1644,42 @@ func (c *c06Case) step(op string) {
 		}
 		if ob.str() != prev.str() {
 			c.violate("close and reopen changed observable state:\n before %s\n after  %s", prev.str(), ob.str())
+		}
+	case "reconn":
+		// the reconnect clause on every path that (re-)creates the stream
+		r.Count("reconn/" + f[1])
+		if strings.HasPrefix(res, "hung:") || strings.HasPrefix(res, "setup:") || strings.HasPrefix(res, "panic:") {
+			c.violate("reconnect via %s crashed / did not terminate: %s", f[1], res)
+			break
+		}
+		if ob.visible() != prev.visible() {
+			c.violate("reconnect changed visible accounts/orders/snapshots")
+		}
+		wantDiscard := false
+		if prev.P != nil && strings.HasPrefix(f[2], "fin") {
+			t := atoi(f[2][strings.Index(f[2], ":")+1:])
+			wantDiscard = t != prev.P.Tx && f[3] == "1"
+			if t != prev.P.Tx {
+				r.Count("reconn/" + f[1] + "/other-tx")
+			} else {
+				r.Count("reconn/" + f[1] + "/same-tx")
+			}
+		} else if prev.P != nil {
+			r.Count("reconn/" + f[1] + "/" + f[2])
+		}
+		if prev.P != nil && !strings.Contains(res, ";q=") {
+			c.violate("reconnect via %s with a staged batch: %s", f[1], res)
+		}
+		if prev.P != nil && strings.HasSuffix(res, ";q=0") {
+			c.violate("reconnect via %s never asked the auctioneer about the staged batch (%s)", f[1], res)
+		}
+		if wantDiscard && ob.P != nil {
+			c.violate("reconnect via %s: the auctioneer finalised another transaction but the staged batch "+
+				"was kept (%s) – it would be applied by the next account spend", f[1], res)
+		}
+		if !wantDiscard && !c06SnapEq(ob.P, prev.P) {
+			c.violate("reconnect via %s: staged batch dropped although not finalised / same tx / cleanup "+
+				"failed (%s)", f[1], res)
 		}
 	case "reconnect":
 		// keep <=> no pending / not finalised / same txid (or an error
@@ -1831,7 +2003,7 @@ func (g *c06Gen) history() []string {
 			if rng.Intn(10) == 0 {
 				k = 5
 			}
-			kind := []string{"multisig", "multisig", "multisig", "expiry", "unknown"}[rng.Intn(5)]
+			kind := []string{"multisig", "multisig", "recreate", "recreate", "recreate", "expiry", "unknown"}[rng.Intn(7)]
 			ops = append(ops, fmt.Sprintf("acctspend %d %s %d %d", k, kind, 1+rng.Intn(7), 100+rng.Intn(900)))
 		case x < 87:
 			k := 1 + rng.Intn(g.nA)
@@ -1868,7 +2040,11 @@ func (g *c06Gen) history() []string {
 			if rng.Intn(5) == 0 {
 				rm = 0
 			}
-			ops = append(ops, fmt.Sprintf("reconnect %s %d", rpc, rm))
+			if rng.Intn(2) == 0 {
+				ops = append(ops, fmt.Sprintf("reconn %s %s %d", []string{"first", "err", "shut"}[rng.Intn(3)], rpc, rm))
+			} else {
+				ops = append(ops, fmt.Sprintf("reconnect %s %d", rpc, rm))
+			}
 		}
 	}
 	return ops
@@ -1902,7 +2078,7 @@ func runC06(r *Run) {
 		return
 	}
 	g := &c06Gen{r: r}
-	for i := 0; i < r.N; i++ {
+	for i := 0; i < r.N && len(r.Violations) < 20; i++ {
 		runOne(g.history(), "C06/history")
 	}
 }
